@@ -199,7 +199,12 @@ class Optimizer(Identifiable, Runnable):
 
     def load_state_dict(self, state_dict: dict[str, Any]) -> None:
         self._epoch = state_dict["iteration"]
-        self.optimizer.load_state_dict(state_dict["optimizer"])
+        optimizer_state = state_dict["optimizer"]
+        # JSON turns the integer keys of the per-parameter state into strings
+        optimizer_state["state"] = {
+            int(key): value for key, value in optimizer_state["state"].items()
+        }
+        self.optimizer.load_state_dict(optimizer_state)
         if self.scheduler is not None:
             self.scheduler.load_state_dict(state_dict["scheduler"])
 
